@@ -119,12 +119,14 @@ theorem zc_full_only_if_pool_exhausted {n : Nat} (hn : 0 < n) {s : St} (h : Reac
   | idle => simp [step, hz] at hnew
   | dCons => simp only [step, hz] at hnew; split at hnew <;> simp [hz] at hnew
   | dLen id => simp [step, hz] at hnew
+  | dLenH id => simp [step, hz] at hnew
   | dDrop id v => simp [step, hz] at hnew
   | dFreeHook id v => simp [step, hz] at hnew
   | dFree id v => simp only [step, hz] at hnew; split at hnew <;> simp [hz] at hnew
   | ePubLen v => simp only [step, hz] at hnew; split at hnew <;> simp [hz] at hnew
   | dFreeLen v => simp only [step, hz] at hnew; split at hnew <;> simp [hz] at hnew
   | lLen => simp [step, hz] at hnew
+  | lLenH tl => simp [step, hz] at hnew
 
 
 /-! ## values -/
@@ -185,8 +187,8 @@ theorem zc_dequeue_takes_oldest {n : Nat} (hn : 0 < n) {s : St} (h : Reachable n
   · rw [hd] at hg; cases hg
   · rw [hg] at hc; exact absurd hc (by simp [ConsLoc])
 
-/-- … and what the dequeue finally returns is the content of that slot (read at `dLen`, unchanged since by `zc_pool_stable`) -/
-theorem zc_dequeue_returns_slot_content (s : St) (t id : Nat) (hz : s.thr t = .dLen id) :
+/-- … and what the dequeue finally returns is the content of that slot (read at `dLenH`, after the two loads of the length query; unchanged since by `zc_pool_stable`) -/
+theorem zc_dequeue_returns_slot_content (s : St) (t id : Nat) (hz : s.thr t = .dLenH id) :
     (step s t).thr t = .dDrop id (s.pool id) ∧ (step s t).deqLog = s.deqLog ++ [s.pool id] := by
   simp [step, hz, setThr]
 
